@@ -214,7 +214,7 @@ def spec_lookup(vis, relative_to, name, types):
 
 
 # ------------------------------------------------------------------ generation
-PKGS = ["", "a", "b", "a.b", "a.b.c", "a.c", "b.a", "a.a", "c"]
+PKGS = ["", "a", "b", "a.b", "a.b.c", "a.c", "b.a", "a.a", "c", "ab", "ab.cd"]
 NAMES = ["a", "b", "c", "M", "N", "E", "x"]
 
 
